@@ -67,6 +67,9 @@ type Behaviour struct {
 	// CFCheckptLieAt > 0: additionally the cfcheckpt list (only) is wrong at
 	// that checkpoint index (1-based), while cfheaders are as per CFLies.
 	CFCheckptLieAt int
+	// CFCheckptHonest: the checkpoint list is the true one although the
+	// cfheaders lie (a batch answer then fails its checkpoint).
+	CFCheckptHonest bool
 	// NoCF: does not answer any filter-related request.
 	NoCF bool
 
@@ -550,6 +553,9 @@ func (p *SimPeer) onGetCFCheckpt(m *wire.MsgGetCFCheckpt) {
 	out := wire.NewMsgCFCheckpt(m.FilterType, &m.StopHash, n)
 	for i := 1; i <= n; i++ {
 		h := p.filterHeader(chain[i*wire.CFCheckptInterval])
+		if p.beh.CFCheckptHonest {
+			h = p.w.tree.FilterHeader(chain[i*wire.CFCheckptInterval])
+		}
 		if p.beh.CFCheckptLieAt == i {
 			h = chainhash.DoubleHashH(append([]byte("fake-checkpoint"), h[:]...))
 		}
